@@ -339,7 +339,8 @@ func c20TLV(typ uint64, val []byte) []byte {
 // universe
 
 var c20FundingVariants = []string{
-	"good", "good", "good", "good", "good", "good",
+	"good", "good", "good", "good", "good", "good", "good", "good", "good",
+	"good", "good", "good",
 	"spent", "wrong_keys", "p2wkh", "script_kind_mismatch", "no_block",
 	"txindex_oob", "txpos_oob", "wrong_txpos", "wrong_txindex",
 }
